@@ -44,7 +44,7 @@ def heavy_inputs(quick):
         ("sqrt-big", "va = sqrt(10^300 + 1); vb = 1; vb"),
     ]
     if not quick:
-        L += [("huge-power-2", "va = 3^300000; vb = 2; vb"), ("factorial-2", "va = 20000!; vb = 1; vb"), ("dice-2", "va = 60d60; vb = 1; vb"), ("recurring-2", "va = 1/99991 to float; vb = 1; vb"),
+        L += [("huge-power-2", "va = 3^300000; vb = 2; vb"), ("factorial-2", "va = 20000!; vb = 1; vb"), ("dice-2", "va = 22d22; vb = 1; vb"), ("recurring-2", "va = 1/99991 to float; vb = 1; vb"),
               ("fibonacci-2", "va = fibonacci 300000; vb = 1; vb"), ("date-loop-2", "va = @2000-01-01 + 5000000 days; vb = 1; vb")]
     # inputs whose work is all in the parser (which has no interrupt parameter)
     P = [("parse-plus-chain-1500", "+".join(["1"] * 1500)), ("parse-minus-mul-chain", "-".join(["2*3"] * 700)), ("parse-juxtapose-1500", " ".join(["2 m"] * 750)), ("parse-string-concat-1500", "+".join(["'a'"] * 1500)), ("parse-nested-parens", "(1+" * 150 + "1" + ")" * 150)]
